@@ -8,6 +8,9 @@ import (
 	"bytes"
 	"fmt"
 	"net"
+	"runtime"
+	"sync"
+	"sync/atomic"
 	"testing"
 	"time"
 
@@ -388,3 +391,126 @@ var specDrain = pbt.Register(pbt.Spec[DrainCase]{
 })
 
 func TestCallerDrainsQueue(t *testing.T) { specDrain.Check(t) }
+
+// ---- producers keep sending while the owner drains the queue ---------------------------------------------------
+
+type DrainConcCase struct {
+	Producers int `json:"producers"`
+	N         int `json:"n"`    // packs per producer
+	Size      int `json:"size"` // filler bytes
+}
+
+func runDrainConc(c DrainConcCase) *pbt.Result {
+	pr, err := newPeer()
+	if err != nil {
+		return pbt.Fail("harness cannot listen: %v", err)
+	}
+	defer pr.shutdown()
+	cl := oneway.NewForVerif(oneway.WithServers([]string{pr.addr}), oneway.WithLicense(clientLicense), oneway.WithPcode(77), oneway.WithUseQueue(), oneway.WithQueueSize(1000000))
+	cl.Timeout = 5 * time.Second
+	defer func() { cl.Destroy(); cl.Close() }()
+	type acc struct {
+		frames [][]byte
+	}
+	accepted := make([]acc, c.Producers)
+	var wg sync.WaitGroup
+	start := make(chan struct{})
+	var running int32 = int32(c.Producers)
+	for g := 0; g < c.Producers; g++ {
+		wg.Add(1)
+		go func(g int) {
+			defer wg.Done()
+			defer atomic.AddInt32(&running, -1)
+			<-start
+			for k := 0; k < c.N; k++ {
+				p := mkPack(int64(g)<<32|int64(k+1), c.Size, uint64(g*7919+k))
+				f := expectedFrame(p, false)
+				if e := cl.SendFlush(p, false); e == nil {
+					accepted[g].frames = append(accepted[g].frames, f)
+				}
+			}
+		}(g)
+	}
+	close(start)
+	drains := 0
+	var derr error
+	// the first drain happens once something has been queued (a drain on a client that has never had a connection and
+	// has nothing to send is outside the statement)
+	for cl.Queue.Size() == 0 && atomic.LoadInt32(&running) > 0 {
+		runtime.Gosched()
+	}
+	for atomic.LoadInt32(&running) > 0 {
+		if e := cl.SendAndClear(); e != nil && derr == nil {
+			derr = e
+		}
+		drains++
+	}
+	wg.Wait()
+	if e := cl.SendAndClear(); e != nil && derr == nil {
+		derr = e
+	}
+	if derr != nil {
+		return pbt.Fail("SendAndClear on a healthy connection returned %v", derr)
+	}
+	total, nAcc := 0, 0
+	byF := map[string][2]int{}
+	for g := range accepted {
+		for k, f := range accepted[g].frames {
+			total += len(f)
+			nAcc++
+			byF[string(f)] = [2]int{g, k}
+		}
+	}
+	pr.waitFor(func() bool {
+		n := 0
+		for _, pc := range pr.conns {
+			n += len(pc.buf)
+		}
+		return n >= total
+	})
+	pr.mu.Lock()
+	defer pr.mu.Unlock()
+	var got []byte
+	for _, pc := range pr.conns {
+		got = append(got, pc.buf...)
+	}
+	fr, rest, perr := splitFrames(got)
+	if perr != nil || len(rest) != 0 {
+		return pbt.Fail("%d producers sent while the owner drained the queue %d times: the collector's stream is not a sequence of whole frames (%d bytes left over, %v)", c.Producers, drains, len(rest), perr)
+	}
+	seen := map[[2]int]bool{}
+	last := make([]int, c.Producers)
+	for i := range last {
+		last[i] = -1
+	}
+	for _, f := range fr {
+		id, ok := byF[string(f)]
+		if !ok {
+			return pbt.Fail("a received frame (%d bytes) is not the frame of any accepted pack", len(f))
+		}
+		if seen[id] {
+			return pbt.Fail("the frame of pack %d of producer %d was received twice", id[1]+1, id[0])
+		}
+		seen[id] = true
+		if id[1] < last[id[0]] {
+			return pbt.Fail("packs of producer %d arrive out of order (%d after %d)", id[0], id[1]+1, last[id[0]]+1)
+		}
+		last[id[0]] = id[1]
+	}
+	if len(seen) != nAcc {
+		return pbt.Fail("%d producers had %d packs accepted into the queue while the owner drained it with SendAndClear (%d calls, all returned nil, healthy connection); the collector received %d of them: %d accepted packs were neither sent nor reported", c.Producers, nAcc, drains, len(seen), nAcc-len(seen))
+	}
+	return &pbt.Result{NT: drains >= 2, Classes: []string{fmt.Sprintf("producers=%d", c.Producers), fmt.Sprintf("drains>=10=%v", drains >= 10)}}
+}
+
+var specDrainConc = pbt.Register(pbt.Spec[DrainConcCase]{
+	Prop: "C06", Name: "producers-send-while-owner-drains",
+	Rule:  "a client in queue mode without its background goroutine (queue large enough to refuse nothing): 1-4 goroutines hand 2000-20000 small packs each to SendFlush while the owner calls SendAndClear in a loop until they are done, and once more at the end (seed C06-s23); every pack whose send returned nil must be received as exactly one whole frame, per-producer order kept; sound for any schedule; non-trivial = at least two drains happened while producers were running; distinct by case",
+	Quick: 8, Thorough: 200,
+	Draw: func(t *rapid.T) DrainConcCase {
+		return DrainConcCase{Producers: rapid.IntRange(1, 4).Draw(t, "producers"), N: rapid.SampledFrom([]int{2000, 5000, 20000}).Draw(t, "n"), Size: rapid.SampledFrom([]int{0, 0, 100}).Draw(t, "size")}
+	},
+	Run: runDrainConc,
+})
+
+func TestProducersSendWhileOwnerDrains(t *testing.T) { specDrainConc.Check(t) }
